@@ -10,6 +10,7 @@ import (
 
 	"github.com/ozontech/file.d/fd"
 	"github.com/ozontech/file.d/pipeline"
+	_ "github.com/ozontech/file.d/plugin/action/join"
 	file "github.com/ozontech/file.d/plugin/input/file"
 	"github.com/ozontech/file.d/zzverif/vexplore"
 	"github.com/ozontech/file.d/zzverif/vos"
@@ -40,6 +41,7 @@ type scen struct {
 	workers   int
 	bound     int
 	batch     int
+	join      bool // a join action on field l (start ^S, continue ^C) in the pipeline
 }
 
 func line(stream, id string) string {
@@ -210,6 +212,17 @@ func startLifetime(n int) (*pipeline.Pipeline, *file.Plugin) {
 	}
 	p.SetOutput(&pipeline.OutputPluginInfo{PluginStaticInfo: &pipeline.PluginStaticInfo{Type: "verif-out"},
 		PluginRuntimeInfo: &pipeline.PluginRuntimeInfo{Plugin: &output{count: batch}}})
+	if sc.join {
+		ainfo, err := fd.DefaultPluginRegistry.GetActionByType("join")
+		if err != nil {
+			panic(err)
+		}
+		acfg, err := pipeline.GetConfig(ainfo, []byte(`{"field":"l","start":"/^S/","continue":"/^C/"}`), nil)
+		if err != nil {
+			panic(err)
+		}
+		p.AddAction(&pipeline.ActionPluginStaticInfo{PluginStaticInfo: &pipeline.PluginStaticInfo{Type: "join", Factory: ainfo.Factory, Config: acfg}, MatchMode: pipeline.MatchModeAnd})
+	}
 	p.Start()
 	w.plugin = plug
 	return p, plug
@@ -306,7 +319,24 @@ func check(sc scen, x *vsched.Exec) []vexplore.Finding {
 		return fs
 	}
 	killed := w.killedAt
-	x2 := vsched.Run(vsched.Options{Horizon: 30 * time.Second, MaxSteps: 200000}, body2)
+	// lifetime 2 runs on the default schedule, so it is a function of what the file system holds at the kill and
+	// of the part of the history still to be applied: identical restart states are run once (state-key memoisation)
+	key := restartKey()
+	var x2 *vsched.Exec
+	if c, ok := life2[sc.name][key]; ok {
+		life2Hits++
+		x2 = c.x
+		w.delivered[2] = c.delivered
+		w.stepsPlayed, w.offsetsAtRestart = w.nextStep, c.offsets
+		w.written, w.lineInfo = c.written, c.lineInfo
+	} else {
+		x2 = vsched.Run(vsched.Options{Horizon: 30 * time.Second, MaxSteps: 200000}, body2)
+		if life2[sc.name] == nil {
+			life2[sc.name] = map[string]life2Result{}
+		}
+		life2[sc.name][key] = life2Result{x: x2, delivered: w.delivered[2], offsets: w.offsetsAtRestart, written: w.written, lineInfo: w.lineInfo}
+		life2Runs++
+	}
 	for _, f := range vexplore.DefaultFindings(x2) {
 		f.Detail = fmt.Sprintf("lifetime 2 (after kill at %s): %s", killed, f.Detail)
 		m := feats()
@@ -361,6 +391,37 @@ func check(sc scen, x *vsched.Exec) []vexplore.Finding {
 	return fs
 }
 
+type life2Result struct {
+	x         *vsched.Exec
+	delivered map[string]int
+	offsets   string
+	written   []string
+	lineInfo  map[string]lineInfo
+}
+
+var life2 = map[string]map[string]life2Result{}
+var life2Runs, life2Hits int64
+
+func restartKey() string {
+	var sb strings.Builder
+	fmt.Fprintf(&sb, "step=%d|", w.nextStep)
+	for _, n := range vos.Cur.Names() {
+		c, _ := vos.Cur.Content(n)
+		if n == offsetsFile {
+			// the saved timestamps differ between executions but do not influence the restart (remove_after is off)
+			var keep []string
+			for _, l := range strings.Split(string(c), "\n") {
+				if !strings.HasPrefix(l, "  last_read_timestamp:") {
+					keep = append(keep, l)
+				}
+			}
+			c = []byte(strings.Join(keep, "\n"))
+		}
+		fmt.Fprintf(&sb, "%s=%q|", n, c)
+	}
+	return sb.String()
+}
+
 func streamsOf(sc scen) int {
 	seen := map[string]bool{}
 	all := ""
@@ -411,8 +472,9 @@ func scenarios(thorough bool) []scen {
 		{name: "one-file-one-stream-async", initial: map[string]string{a: line("", "a1") + line("", "a2") + line("", "a3")}, bound: 1},
 		{name: "one-file-one-stream-sync", initial: map[string]string{a: line("", "a1") + line("", "a2") + line("", "a3")}, sync: true, bound: 1},
 		{name: "two-streams-sync", initial: map[string]string{a: line("x", "a1") + line("y", "a2") + line("x", "a3")}, sync: true, bound: 1},
-		// kill plus one more deviation: lets one stream run ahead of the other before the kill
-		{name: "two-streams-sync-4", initial: map[string]string{a: line("x", "a1") + line("y", "a2") + line("x", "a3") + line("y", "a4")}, sync: true, bound: 2},
+		// a join action holds the third line (stream x) until the stream time-out while stream y runs ahead: both streams
+		// have saved offsets and the lagging one still has an undelivered line before the other's offset
+		{name: "two-streams-join-hold", initial: map[string]string{a: line("x", "a1") + line("y", "a2") + line("x", "S3") + line("y", "a4")}, sync: true, join: true, bound: 1},
 		{name: "two-streams-async", initial: map[string]string{a: line("x", "a1") + line("y", "a2") + line("x", "a3") + line("y", "a4")}, bound: 1},
 		{name: "append-partial-then-complete", initial: map[string]string{a: line("", "a1")}, watch: true, bound: 1, steps: []step{
 			{op: "append", path: a, data: line("", "a2") + `{"l":"a`, pause: 100 * time.Millisecond}, {op: "notify", kind: "write", path: a},
@@ -427,6 +489,8 @@ func scenarios(thorough bool) []scen {
 			{op: "truncate", path: a, pause: 700 * time.Millisecond}, {op: "append", path: a, data: line("", "t1")}, {op: "notify", kind: "write", path: a}}},
 	}
 	if thorough {
+		// kill plus one more deviation: lets one stream run ahead of the other before the kill
+		s = append(s, scen{name: "two-streams-sync-4", initial: map[string]string{a: line("x", "a1") + line("y", "a2") + line("x", "a3") + line("y", "a4")}, sync: true, bound: 2})
 		for i := range s {
 			s[i].bound = 2
 		}
@@ -450,4 +514,6 @@ func TestVerif(t *testing.T) {
 			Body: func() { body1(sc) }, Check: func(x *vsched.Exec) []vexplore.Finding { return check(sc, x) }, Observation: observation})
 	}
 	vexplore.Run(r, scs)
+	r.Count("lifetime2_runs", life2Runs)
+	r.Count("lifetime2_memo_hits", life2Hits)
 }
